@@ -266,6 +266,8 @@ class Grammar:
                     yield from explode_generics(get_generic_parameters(ty))
                 elif is_generic_list(ty) or is_annotated(ty):
                     yield from explode_generics([get_generic_parameter(ty)])
+                elif is_generic(ty):
+                    yield from explode_generics(get_generic_parameters(ty))
                 else:
                     yield ty
 
